@@ -62,7 +62,7 @@ def _record(r, wid: int, i: int, big: bool = False) -> Dict[str, Any]:
     if r.chance(0.4):
         rec["now"] = "2023-11-14T22:13:20+00:00"
     if r.chance(0.3):
-        rec["text"] = r.choice(["plain", "uni→ñ日本", "line\nbreak", "quote\"s", "tab\tbed", " sep", ""])
+        rec["text"] = r.choice(["plain", "uni→ñ日本", "line\nbreak", "quote\"s", "tab\tbed", "ls\u2028sep", "nel\x85", "ps\u2029", "cr\r\n", "ff\x0c\x1c", ""])
     if r.chance(0.3):
         rec["durations_ms"] = {"t1": 1.5, "total": 9.25}
     if r.chance(0.3):
